@@ -1,4 +1,5 @@
 import SaVerif.Lemmas.PoolFaultG
+import SaVerif.Lemmas.RecProto
 /-!
 # C26 — The pool recovers from any fault without leaking or reusing dead connections
 
@@ -156,6 +157,78 @@ theorem counters_sane (c : Cfg) (plan : List Nat) (ops : List Op) :
     simp at this ⊢
     omega
   · exact hi.p.qLe
+
+
+/-! ## concurrent part: hand-over of an entry between concurrent checkouts
+
+Every write of a cell another thread can see (`fairy_ref`, the queue) is one atomic step of
+`SaVerif.RecProto.step`; a run of the machine is an arbitrary interleaving of any number of
+checkout attempts.  The theorems hold for ALL runs. -/
+
+/-- the invariant holds after every run -/
+theorem proto_inv_run (ls : List RecProto.Label) (s : RecProto.St)
+    (h : RecProto.run RecProto.init ls = some s) : RecProto.Inv s :=
+  RecProto.inv_run ls _ _ RecProto.inv_init h
+
+/-- whoever holds an entry is designated by its `fairy_ref`: the guard of
+    `_finalize_fairy` (`fairy_ref is not None` / `fairy_ref is ref`) passes for every holder -/
+theorem release_never_skipped (ls : List RecProto.Label) (s : RecProto.St) (a r : Nat)
+    (h : RecProto.run RecProto.init ls = some s) (hh : s.pc a = .holding r) :
+    s.ref r = some a :=
+  (proto_inv_run ls s h).holdRef a r hh
+
+/-- ... hence the step that loses the entry is never enabled -/
+theorem skip_never_enabled (ls : List RecProto.Label) (s : RecProto.St) (a r : Nat)
+    (h : RecProto.run RecProto.init ls = some s) : RecProto.step s (.skip a r) = none := by
+  simp only [RecProto.step]
+  split
+  · rename_i hc
+    exact absurd (release_never_skipped ls s a r h hc.1) hc.2
+  · rfl
+
+/-- an entry has at most one checkout attempt responsible for it, and is then neither idle
+    (visible to others) nor closed -/
+theorem handover_exclusive (ls : List RecProto.Label) (s : RecProto.St) (a b r : Nat)
+    (h : RecProto.run RecProto.init ls = some s)
+    (ha : RecProto.Owns s a r) (hb : RecProto.Owns s b r) :
+    a = b ∧ s.idle r = false ∧ s.dead r = false :=
+  ⟨(proto_inv_run ls s h).excl a b r ha hb, ((proto_inv_run ls s h).ownState a r ha).1,
+   ((proto_inv_run ls s h).ownState a r ha).2.2⟩
+
+/-- once every holder has released, every entry ever created is idle in the pool or was
+    closed: no slot is lost, under any interleaving -/
+theorem proto_quiescent_no_loss (ls : List RecProto.Label) (s : RecProto.St)
+    (h : RecProto.run RecProto.init ls = some s) (hq : RecProto.Quiescent s) (r : Nat)
+    (hu : s.used r = true) : s.idle r = true ∨ s.dead r = true := by
+  rcases (proto_inv_run ls s h).accounted r hu with h1 | h1 | ⟨a, ha⟩
+  · exact Or.inr h1
+  · exact Or.inl h1
+  · rcases hq a with h2 | h2 <;> simp [RecProto.Owns, h2] at ha
+
+/-- the order of the two writes in `checkin()` matters: with `fairy_ref = None` AFTER the
+    entry is made visible (`RecProto.stepLate`), a concurrent checkout of the entry between
+    the two writes has its `fairy_ref` wiped, its release is skipped and the entry is lost:
+    everything released, entry 0 neither idle nor closed -/
+theorem late_clear_loses_entry :
+    ∃ s, RecProto.runLate RecProto.init
+        [.create 0 0, .setref 0 0, .put 0 0, .pop 1 0, .setref 1 0, .clear 0 0, .skip 1 0] = some s ∧
+      RecProto.Quiescent s ∧ s.used 0 = true ∧ s.idle 0 = false ∧ s.dead 0 = false := by
+  refine ⟨_, rfl, ?_, rfl, rfl, rfl⟩
+  intro a
+  by_cases h1 : a = 1
+  · subst h1; right; rfl
+  · by_cases h0 : a = 0
+    · subst h0; right; rfl
+    · left; simp [RecProto.upd, RecProto.init, h0, h1]
+
+/-- the same schedule is not a run of the real order: the early `put` is refused -/
+example : RecProto.run RecProto.init [.create 0 0, .setref 0 0, .put 0 0] = none := by
+  simp [RecProto.run, RecProto.step, RecProto.init, RecProto.upd]
+
+/-- non-vacuity: two checkouts hand one entry over (A releases, B takes it and releases) -/
+example : ∃ s, RecProto.run RecProto.init
+    [.create 0 0, .setref 0 0, .clear 0 0, .put 0 0, .pop 1 0, .setref 1 0, .clear 1 0, .put 1 0] = some s ∧
+    s.idle 0 = true := ⟨_, rfl, rfl⟩
 
 /-! ## non-vacuity -/
 
